@@ -33,8 +33,9 @@ LISTKEYS = ["items", "rows"]
 #   ("again", kind, key, i, ops) the object offered last was NOT taken (refused, or the walk failed): the caller still holds it,
 #                                applies `ops` to it through its own reference and offers that very object again by `kind`
 #   ("moveobj", kind, key, i, from)  the configuration found at path `from` below the ROOT (an item of another list over the same
-#                                item schema) is offered as it is by `kind`; generated as the LAST step of a history only (an
-#                                accepted offer leaves one object in two lists)
+#                                item schema) is offered as it is by `kind`.  A REFUSED offer leaves everything as it was, the
+#                                item's own place included (F57), so histories go on after it; an offer that may be ACCEPTED is
+#                                the last step of its history (it leaves one object in two lists)
 #   ("alias", steps, op)         `op` applied through the reference the caller kept to the object handed over last; `steps` is
 #                                where the model finds that object below the addressed configuration (first step) and the rest
 #                                of the way to the configuration `op` addresses inside it
@@ -755,7 +756,7 @@ def matrix_cases():
                     ("c", {"t": "cfglist", "required": True, "vals": [], "fields": item, "same_as": ("a",)})]})]
     base_m = {"vt": [], "dyn": False, "vals": [], "fields": fields_m}
     kw_m = {"a": [{"n": 1}, {"n": 2, "s": "two"}], "b": [{"n": 3}], "sub": {"c": [{"n": 4}]}}
-    breaks = [[], [(I("a", 0), ("reset", "n"))], [(I("a", 0), ("load", {"n": None}, False))], [(I("a", 1), ("reset", "n")), (I("a", 0), ("set", "s", "zz", "attr"))]]
+    breaks = [[], [(I("a", 0), ("reset", "n"))], [(I("a", 0), ("set", "s", "zz", "attr")), (I("a", 0), ("reset", "n"))], [(I("a", 1), ("reset", "n")), (I("a", 0), ("set", "s", "zz", "attr"))]]
     for brk in breaks:
         for j in (0, 1, 7):
             for kind, i in (("appendobj", None), ("insertobj", 0), ("insertobj", -1), ("setidxobj", 0), ("setidxobj", 5)):
@@ -767,6 +768,66 @@ def matrix_cases():
             cases.append(dict(base_m, kw=kw_m, ops=brk + [((), ("moveobj", kind, "a", i, K("sub") + I("c", 0)))], kind="matrix-move"))
             cases.append(dict(base_m, kw=kw_m, ops=brk + [((), ("moveobj", kind, "b", i, K("sub") + I("c", 0)))], kind="matrix-move"))
     cases.append(dict(base_m, kw={"a": [{"n": 1}]}, ops=[(I("a", 0), ("reset", "n")), ((), ("moveobj", "appendobj", "b", None, I("a", 0)))], kind="matrix-move"))
+    # after a REFUSED offer the item is still where it was, in every respect: a later rejected assignment on it names its real
+    # place, whole-configuration validation names it there, it can be repaired in place and offered again
+    after_refusal = [[(I("a", 0), ("set", "s", "TOOLONG", "attr"))], [(I("a", 0), ("set", "n", 99, "dotted"))], [((), ("validate", False))],
+                     [((), ("validate", True))], [(I("a", 0), ("validate", False))], [(I("a", 0), ("set", "n", 5, "attr")), ((), ("validate", False))],
+                     [(I("a", 0), ("set", "n", 5, "attr")), ((), ("moveobj", "appendobj", "b", None, I("a", 0)))],
+                     [((), ("moveobj", "insertobj", "b", 0, I("a", 0))), (I("a", 0), ("set", "s", "TOOLONG", "attr"))],
+                     [((), ("reset", "a"))], [((), ("append", "a", {"n": 7})), (I("a", 0), ("set", "n", "bad", "attr"))],
+                     [((), ("insert", "a", 0, {"n": 7})), (I("a", 1), ("set", "n", "bad", "attr")), ((), ("validate", True))]]
+    for brk in breaks[1:3]:
+        for kind, i in (("appendobj", None), ("insertobj", 0), ("setidxobj", 0), ("setidxobj", 5)):
+            for tail in after_refusal:
+                cases.append(dict(base_m, kw=kw_m, ops=brk + [((), ("moveobj", kind, "b", i, I("a", 0)))] + tail, kind="matrix-move2"))
+        for tail in after_refusal[:6]:
+            cases.append(dict(base_m, kw=kw_m, ops=brk + [(K("sub"), ("moveobj", "appendobj", "c", None, I("a", 0)))] + tail, kind="matrix-move2"))
+    for tail in ([(K("sub") + I("c", 0), ("set", "s", "TOOLONG", "attr"))], [(K("sub") + I("c", 0), ("set", "n", -1, "dotted")), ((), ("validate", True))],
+                 [(K("sub"), ("validate", False))]):
+        for kind, i in (("appendobj", None), ("setidxobj", 0)):
+            cases.append(dict(base_m, kw=kw_m, ops=[(K("sub") + I("c", 0), ("reset", "n")), ((), ("moveobj", kind, "b", i, K("sub") + I("c", 0)))] + tail,
+                              kind="matrix-move2"))
+    # a refused side-built object goes back to being nobody's: assigned to a sub-configuration slot afterwards it is named there
+    # ---- lists whose items are EQUAL to one another and to a blank item (all fields defaulted), plain and config-type items:
+    #      a refused map / object must leave the very same item objects at the very same positions ----
+    eq_item = [("n", {"t": "leaf", "kind": ("int", 0, 10), "required": False, "default": 3, "callable": False, "sensitive": False}),
+               ("s", {"t": "leaf", "kind": ("str", None, 5, False, False), "required": False, "default": "d", "callable": False, "sensitive": False})]
+    fields_e = [("rows", {"t": "cfglist", "required": False, "vals": [], "fields": eq_item, "ct": True}),
+                ("items", {"t": "cfglist", "required": False, "vals": [], "fields": eq_item})]
+    base_e = {"vt": [], "dyn": False, "vals": [], "fields": fields_e}
+    refused_items = [{"n": 99}, {"s": "TOOLONG"}, {"n": 4, "s": "TOOLONG"}, {"s": "ok", "n": -1}, {"zz": 1}, 7]
+    for lk in ("rows", "items"):
+        for kwv in ([{}, {}], [{}, {"n": 5}, {}], [{"n": 5}, {"n": 5}], [{}]):
+            for x in refused_items:
+                for o in (("append", lk, x), ("insert", lk, 0, x), ("insert", lk, -1, x), ("setidx", lk, 0, x), ("setidx", lk, len(kwv) - 1, x)):
+                    cases.append(dict(base_e, kw={lk: kwv}, ops=[((), o), ((), ("validate", True))], kind="matrix-eq"))
+            for o in (("appendobj", lk, Obj((lk,), [S("n", 3)])), ("appendobj", lk, Obj((lk,), [])), ("append", lk, {}), ("append", lk, {"n": 3}),
+                      ("setidxobj", lk, 0, Obj((lk,), [])), ("insertobj", lk, 0, Obj((lk,), []))):
+                cases.append(dict(base_e, kw={lk: kwv}, ops=[((), o), ((), ("append", lk, {"n": 99})), ((), ("validate", True))], kind="matrix-eq"))
+    # ---- a list inside a sub-configuration inside a list item: a ready-made item that is refused is named by the full path of
+    #      the position it was offered for ----
+    srv = [("host", {"t": "leaf", "kind": ("str", 1, None, False, True), "required": True, "default": None, "callable": False, "sensitive": False}),
+           ("port", {"t": "leaf", "kind": ("int", 1, 65535), "required": False, "default": 80, "callable": False, "sensitive": False})]
+    fields_p = [("pool", {"t": "cfglist", "required": False, "vals": [], "fields": [
+        ("name", {"t": "leaf", "kind": ("str", None, None, False, False), "required": False, "default": "p", "callable": False, "sensitive": False}),
+        ("grp", {"t": "sub", "dyn": False, "vals": [], "fields": [
+            ("servers", {"t": "cfglist", "required": False, "vals": [], "fields": srv}),
+            ("spare", {"t": "cfglist", "required": False, "vals": [], "fields": srv, "same_as": ("pool", "grp", "servers")})]})]})]
+    base_p = {"vt": [], "dyn": False, "vals": [], "fields": fields_p}
+    kw_p = {"pool": [{"name": "one", "grp": {"servers": [{"host": "h1"}], "spare": [{"host": "s1"}, {"host": "s2", "port": 81}]}}, {"name": "two", "grp": {"servers": []}}]}
+    G = lambda j: (("item", "pool", j), ("key", "grp"))          # noqa: E731
+    SP = ("pool", "grp", "servers")
+    for j in (0, 1):
+        for d in ([], [S("port", 99999)], [S("host", "  ")], [S("host", "ok")], [S("host", "ok"), S("port", 0)]):
+            for o in (("appendobj", "servers", Obj(SP, d)), ("insertobj", "servers", 0, Obj(SP, d)), ("setidxobj", "servers", 0, Obj(SP, d)),
+                      ("appendobj", "spare", Obj(SP, d))):
+                cases.append(dict(base_p, kw=kw_p, ops=[(G(j), o), ((), ("validate", True))], kind="matrix-nest"))
+        cases.append(dict(base_p, kw=kw_p, ops=[(G(j), ("append", "servers", {"port": 5})), (G(j), ("append", "servers", {"host": "x", "port": 0}))], kind="matrix-nest"))
+    for tail in ([], [(G(0) + (("item", "spare", 0),), ("set", "port", 0, "attr"))], [((), ("validate", False))]):
+        cases.append(dict(base_p, kw=kw_p, ops=[(G(0) + (("item", "spare", 0),), ("reset", "host")),
+                                                (G(0), ("moveobj", "appendobj", "servers", None, G(0) + (("item", "spare", 0),)))] + tail, kind="matrix-nest"))
+        cases.append(dict(base_p, kw=kw_p, ops=[(G(0) + (("item", "spare", 1),), ("reset", "host")),
+                                                (G(1), ("moveobj", "insertobj", "servers", 0, G(0) + (("item", "spare", 1),)))] + tail, kind="matrix-nest"))
     # ---- documents that parse and are refused as a whole before load_tree starts: an include that cannot be resolved; a root
     #      that is a sequence of key/value pairs.  Dynamic roots with run-time keys set before the load. ----
     fields_i = [("n", {"t": "leaf", "kind": ("int", 1, 100), "required": False, "default": 3, "callable": False, "sensitive": False}),
